@@ -159,3 +159,50 @@ PROPS["C18"] = {
                   "floors": {"C18.crash": {"interrupted-real-mutation": 0.2}}},
     },
 }
+
+PROPS["C05"] = {
+    "level": "exploration",
+    "technique": "differential (twin-run) property testing: the same generated history is executed through the wire-born and the decoded ingress in two synctest bubbles with identical virtual clocks and compared step by step",
+    "level_text": ("Generated configurations (cookie secret, NSID, chaos, client and per-entry rate limits, hosts file, empty zones), upstream tables (positive, CNAME chains fully/partly present, NXDOMAIN, NODATA, RRSIG-bearing with generated windows, >1232/>4096-byte answers, SERVFAIL with/without EDE, EDE-bearing answers with foreign OPT options, ECS-scoped answers, escaped/binary labels) "
+                   "and histories of byte-level query packets (every flag, opcodes, classes, OPT versions/ext-rcode/options incl. hand-encoded malformed ECS, count edits, truncation, compression pointers, trailing bytes) and sleeps are run twice on the real default chain - all packets wire-born vs all decoded - under identical virtual clocks; "
+                   "decoded replies (header bits, rcode, question, per-section record multisets with TTLs, OPT version/size/DO/options), drop-vs-reply, cache contents with remaining lifetimes, failure-cache state and the upstream call count must be identical after every step. Exploration."),
+    "level_note": "Trusted: miekg/dns Unpack for decoding both transcripts; the harness transports stand in for the UDP/TCP engine jobs (StrictSlots + LeaseWire). Subtree-cut / RFC 8198 rungs need resolver provenance and are not reached by this stub upstream; inline-vs-worker replay is not compared.",
+    "rule": ("evaluations = histories (2-14 steps, each run twice). Non-trivial = the wire run really served from the byte ladder (exact hit, alias chase or cached failure, measured from dns_cache_wire_fastpath_total deltas) or contained a byte-edited packet; distinct = hash(step shapes, config)."),
+    "units": {
+        "twin": {"pkg": "./server", "run": "^TestVerifC05Twin$",
+                 "tiers": {"quick": T(1200, 8, timeout=600), "thorough": T(40000, 12, timeout=3400)},
+                 "floors": {"C05.twin": {"wire-served": 0.2, "wire:chase_served": 0.02, "wire:failure_served": 0.005, "edited-packet": 0.1, "has-dropped-packet": 0.1}}},
+    },
+}
+
+PROPS["C04"] = {
+    "level": "exploration",
+    "technique": "history-based property testing under a virtual clock (testing/synctest): generated query/sleep/purge/late-prefetch histories against the real default chain; every record a client sees is traced (by a per-fetch stamp in its RDATA) to the upstream fetch it came from and judged by a reference lifetime model",
+    "level_text": ("Histories of queries (decoded or wire-born, UDP/TCP, CD/DO/ECS/case variants), sleeps from 1 s to beyond 24 h, purges and scripted late-background-refresh orderings run against the real default chain with prefetch on/off and ECS caching on/off. "
+                   "The upstream stamps each record with the fetch that produced it and, like a resolver, reports a generated delegation lease; a reference model (min of record TTLs floored at 5 s and capped at 24 h, RRSIG expiry, SOA minimum, ECS cap, lease overriding the floor) gives each fetch an upper-bound lifetime. "
+                   "Every cached record a client sees must be inside that lifetime, show a TTL no larger than what remains, never grow between hits on the same stored data, and a refresh that completed after newer client-path data was stored must not be what later lookups return. Exploration."),
+    "level_note": "Trusted: the reference lifetime model (an upper bound: sdns may expire earlier). Denial-proof and subtree-cut lifetimes are covered by C02's cache unit; DNS64 composition lifetimes are not exercised here.",
+    "rule": ("evaluations = histories. Non-trivial = a cached record judged in the second half of its life or within 3 s of its end, an alias reply composed from cache, or a late refresh ordered after newer data; distinct = hash(classes, step shapes)."),
+    "units": {
+        "lifetime": {"pkg": "./server", "run": "^TestVerifC04Lifetime$",
+                     "tiers": {"quick": T(2500, 8, timeout=600), "thorough": T(80000, 12, timeout=3400)},
+                     "floors": {"C04.lifetime": {"late-in-life": 0.15, "composed-from-cache": 0.05, "late-prefetch-judged": 0.05}}},
+    },
+}
+
+PROPS["C03"] = {
+    "level": "exploration",
+    "technique": "property testing with planted 64-bit key collisions (in-package export) and question-stamped upstream answers through every lookup route of the real chain; round-trip/differential test of wire vs presentation keying over all label octets",
+    "level_text": ("A question is resolved and cached through the real default chain; a near-miss question differing in exactly one dimension (ASCII case, bit 0x20 of a non-letter octet, label boundary, one octet, type, class, CD, ECS source, whole name; escaped and binary labels included) is then looked up after the first entry has been planted under the near-miss's 64-bit key. "
+                   "Because the upstream stamps answers with a digest of the question asked, any reply shows whose data it carries: through the decoded and wire ingress, alias chase, Store.Get, explicit-partition admission, purge, RFC 9520 failure lookups (with planted failure-key collisions) and a background refresh answering another question, the near-miss must behave as a miss, while case-only variants and in-scope audiences must hit. "
+                   "A second unit checks KeyWire==Key, KeyWireWithPrefix==KeyWithPrefix and WireNameEqualsPresentation over arbitrary label octets. Exploration."),
+    "level_note": "Trusted: fnv digest stamping in the stub; netip for the audience relation. Collisions are planted through a verif-tagged export in the cache package rather than found; subtree-cut key collisions are not planted (cuts need resolver provenance).",
+    "rule": ("evaluations = (stored question, looked-up question, route list) cases and key cases. Non-trivial = a collision was actually planted or the pair is the same question in another spelling; distinct = hash(dimension, both questions, routes)."),
+    "units": {
+        "routes": {"pkg": "./server", "run": "^TestVerifC03Routes$",
+                   "tiers": {"quick": T(1200, 8, timeout=600), "thorough": T(40000, 12, timeout=3400)},
+                   "floors": {"C03.routes": {"planted": 0.4, "failure-planted": 0.2, "same-question-variant": 0.15, "mismatched-refresh": 0.03, "store-set": 0.1}}},
+        "keys": {"pkg": "./internal/cache", "run": "^TestVerifC03Keys$",
+                 "tiers": {"quick": T(20000, 2, timeout=300), "thorough": T(600000, 4, timeout=3000)}},
+    },
+}
